@@ -8,6 +8,7 @@ CLAIMS = {
     # id: (technique, text, note, design_ref)
 }
 NOT_APPLICABLE = {}
+ADDED = {}
 
 exec(open(os.path.join(HERE, "manifest_table.py")).read())
 
@@ -15,6 +16,8 @@ def main():
     checks = []
     for pid in sorted(CLAIMS):
         tech, text, note, ref = CLAIMS[pid]
+        if ADDED.get(pid):
+            text = text.rstrip() + " " + ADDED[pid]
         checks.append({
             "property_id": pid,
             "quick_cmd": "./check.py %s --tier quick" % pid,
